@@ -64,8 +64,11 @@ func (r *newRevisionReconciler) Reconcile(ctx context.Context,
 		"collisionRev", conflictingObjectSet.GetRevision(),
 		"latestRev", latestRevisionNumber)
 	controllerRef := metav1.GetControllerOf(conflictingObjectSet.ClientObject())
+	// A revision of 0 means the conflicting ObjectSet has not been reconciled yet:
+	// it can only be the one we just created and our cache was not up to date when listing.
 	if !conflictingObjectSet.IsArchived() &&
-		conflictingObjectSet.GetRevision() >= latestRevisionNumber &&
+		(conflictingObjectSet.GetRevision() == 0 ||
+			conflictingObjectSet.GetRevision() >= latestRevisionNumber) &&
 		controllerRef != nil &&
 		controllerRef.UID == objectDeployment.ClientObject().GetUID() &&
 		equality.Semantic.DeepEqual(newObjectSet.GetTemplateSpec(), conflictingObjectSet.GetTemplateSpec()) {
